@@ -405,6 +405,7 @@ def check_pre(run, db):
 
 
 def run(run):
+    run.rule('R-RUN', 'an array handed out by the intrusive lists covers the requested bytes: the search accounts the interval exactly (shared with C02/C04)', floor=2)
     run.rule('R-BOUND', 'cursor advance == checked amount, against the end of the same region', floor=10)
     run.rule('R-CONSUME', 'inserted observer-derived regions are consumed from the stack on all paths; no observer is returned', floor=10)
     run.rule('R-PRE', 'FreeList::insert call sites establish the minimum size', floor=10)
@@ -425,6 +426,9 @@ def run(run):
             run.broke('FreeList::insert call sites not found [%s]' % cfg)
         if unlink.check_unlink(run, db) < 6:
             run.broke('free list functions not found [%s]' % cfg)
+        from rules import c02
+        if c02.check_run(run, db) < 2:
+            run.broke('array search functions not found [%s]' % cfg)
     witness.run_witness(run, 'W-layout', 'c01_layout.cpp', common.configs(run))
     fixtures.expect_fire(run, 'c01_bad.cpp', _fixture, 'R-BOUND')
 
